@@ -46,7 +46,8 @@ def e1c(ctx: Ctx):
                 f"`{r[0].name}.visit` never calls visitor.visit_statement(self): the statement is invisible to the passes that look for statements (duplicate ON ERR/ON BRK refusal, DIM and HBUFF detection) and procedure calls hoisted out of its operands are attached to the previous statement",
                 file=r[0].module,
                 line=r[1].lineno,
-                props=["C05", "C04", "C06"],
+                # (for a statement that transfers control the misplaced computation also changes the path taken)
+                props=["C05", "C04", "C06"] + (["C02"] if __import__("re").search(r"(OnGo|Goto|Gosub|If|For|Next|While)", cls) else []),
             )
             continue
         if first_child is None:
